@@ -319,9 +319,16 @@ class ContractMixin:
                 objs.append(v)
         for (o, oc) in st.new_objs:
             objs.append(Val(REF(oc), o))
-        for v in objs:
+        seen = set()
+
+        def visit(v, depth):
+            if v.t.get_id() in seen:
+                return
+            seen.add(v.t.get_id())
             self.touch(st, v, guard=True)
-            # depth 1: the objects its reference fields point to
+            if depth == 0:
+                return
+            # the objects its reference fields point to
             for n in self.mro_names(v.ty[1]):
                 m = self.reg.models.get(n)
                 if m is None:
@@ -331,7 +338,9 @@ class ContractMixin:
                         s2 = st.copy()
                         s2.heap_override = st.inv_base
                         t = self.read_field(s2, v.t, n + "." + f, ty).t
-                        self.touch(st, Val(REF(ty[1]), t), guard=True)
+                        visit(Val(REF(ty[1]), t), depth - 1)
+        for v in objs:
+            visit(v, 2)
 
     def inv_formula(self, st, cn, text, obj, snap=None):
         fr = Frame(self.cur_func, None, spec=True)
@@ -552,6 +561,9 @@ class ContractMixin:
         for en, spec in c.raises.items():
             w = spec.get("when")
             whens.append(self.eval_clause(w, st, frame=fr) if w else None)
+        n_before = len(outs)
+        st_guard = st.copy()
+        vacuous = [True]
         for vi, (kind, en, spec) in enumerate(variants):
             s = st.copy() if vi < len(variants) - 1 else st
             s.note("%s:%s" % (info.qualname, kind if en is None else "raise " + en))
@@ -569,6 +581,11 @@ class ContractMixin:
                     s.assume(n >= (1 if kind in ("signal", "close") else 0))
                 s.susp = s.susp + n
                 s.last_susp = s.snap()
+                s.inv_base = s.last_susp
+                s.inv_over = {}
+                s.inv_hist = ()
+                s.touched = frozenset()
+                self.assume_invariants_eagerly(s)
                 if kind == "normal":
                     self.assume_kernel_facts(s)
             else:
@@ -635,6 +652,7 @@ class ContractMixin:
                         s.assume(self.eval_clause(ens, s, frame=sfr))
                     if not self.feasible(s):
                         continue
+                    vacuous[0] = False
                     s.old = saved_old
                     outs.extend(k(res, s))
                 elif kind == "raise":
@@ -643,6 +661,7 @@ class ContractMixin:
                         s.assume(w)
                     if not self.feasible(s):
                         continue
+                    vacuous[0] = False
                     exc = self.alloc(s, en, "exc")
                     sfr.locals["exc"] = exc
                     for ens in _l(spec.get("ensures")) + c.on_exit:
@@ -670,10 +689,16 @@ class ContractMixin:
                         s.assume(self.eval_clause(ens, s, frame=sfr))
                     if not self.feasible(s):
                         continue
+                    vacuous[0] = False
                     s.old = saved_old
                     outs.append((Outcome("X", exc), s))
             finally:
                 pass
+        if vacuous[0] and self.feasible(st_guard):
+            # the caller's state is reachable but no outcome of the callee's contract is consistent with it:
+            # either the contract is wrong or a precondition failed -- never drop the path silently
+            self.emit(st_guard, "vacuity", "call[%s].some_outcome_possible" % info.qualname,
+                      "contract of %s admits an outcome in this state" % info.qualname, z3.BoolVal(False))
         return outs
 
     def changed_keys(self, pre, st):
@@ -935,7 +960,7 @@ class ContractMixin:
             self.emit(st, "on_exit", "on_exit[%d](%s)" % (i, tag), cl, self.eval_clause(cl, st))
         if not c.no_invariants:
             self.assert_invariants(st, where="exit(%s)" % tag)
-        if c.check_frame and c.suspends is None:
+        if c.check_frame and (c.suspends is None or c.suspends[1] == 0):
             self.check_frame(c, info, st, tag)
 
     def check_normal_exit(self, c, info, res, st):
